@@ -95,6 +95,20 @@ def _register_call_of(dec):
     return None
 
 
+def _keys_of(ann) -> List[str]:
+    """all dispatch keys of an annotation: Union[A, B] / Optional[A] / A | B register one key per member"""
+    if isinstance(ann, ast.Subscript) and (dotted(ann.value) or "").split(".")[-1] in ("Union", "Optional"):
+        sl = ann.slice
+        members = list(sl.elts) if isinstance(sl, ast.Tuple) else [sl]
+        out = [k for m in members for k in _keys_of(m)]
+        if (dotted(ann.value) or "").split(".")[-1] == "Optional":
+            out.append("None")
+        return out
+    if isinstance(ann, ast.BinOp) and isinstance(ann.op, ast.BitOr):
+        return _keys_of(ann.left) + _keys_of(ann.right)
+    return [_key_of(ann)]
+
+
 def _key_of(ann) -> str:
     if ann is None:
         raise AnalysisError("registered handler without a type annotation on its value parameter")
@@ -143,12 +157,12 @@ def own_family(ci: ClassInfo, name: str) -> Optional[Family]:
                     params = st.args.args
                     if len(params) < 2:
                         raise AnalysisError(f"{ci.name}.{st.name}: registered handler has no value parameter")
-                    key = _key_of(params[1].annotation)
-                    table[key] = Handler(ci, st, key)
+                    for key in _keys_of(params[1].annotation):
+                        table[key] = Handler(ci, st, key)
                 rc = _register_call_of(dec)
                 if rc and rc[0] == name:
-                    key = _key_of(rc[1])
-                    table[key] = Handler(ci, st, key)
+                    for key in _keys_of(rc[1]):
+                        table[key] = Handler(ci, st, key)
     return Family(ci, name, ci, table, plain=False)
 
 
